@@ -27,8 +27,9 @@ SPEC = os.path.join(VERIF, "spec")
 HARNESS = os.path.join(VERIF, "harness")
 # evidence under /verif describes /repo only: a run against another tree (VERIF_REPO, seeded changes)
 # writes its evidence and replay files elsewhere
-EVID = os.path.join(VERIF, "evidence") if os.path.realpath(REPO) == "/repo" else \
-    os.environ.get("VERIF_EVIDENCE", os.path.join("/tmp", "verif-evidence-" + os.path.basename(os.path.realpath(REPO))))
+EVID = os.environ.get("VERIF_EVIDENCE") or (
+    os.path.join(VERIF, "evidence") if os.path.realpath(REPO) == "/repo"
+    else os.path.join("/tmp", "verif-evidence-" + os.path.basename(os.path.realpath(REPO))))
 REPLAYS = os.path.join(EVID, "replays")
 NCPU = os.cpu_count() or 4
 
